@@ -53,6 +53,10 @@ class C01System(BuilderSystem):
         ops.append(["set_distance_mode", ["absolute"], {}])
         ops.append(["set_distance_mode", ["relative"], {}])
         if not self.is_core:
+            # unrelated state-tracked commands interleaved with motion (they share tables and caches with it)
+            ops.append(["set_extrusion_mode", ["relative"], {}])
+            ops.append(["set_extrusion_mode", ["absolute"], {}])
+            ops.append(["set_length_units", ["in"], {}])
             ops.append(["auto_home", [], {}])
             ops.append(["auto_home", [], {"x": 0}])
             ops.append(["auto_home", [], {"y": 0}])
@@ -147,6 +151,7 @@ class C01System(BuilderSystem):
             tuple((rf(m.pos[a]) if m.known[a] else None, m.rel_steps[a] if m.known[a] else 0) for a in ("X", "Y", "Z")),
             m.relative,
             tuple(st.ctxinfo),
+            None if self.is_core else (str(g.state.extrusion_mode), str(g.state.length_units)),
         )
 
     def outcome(self, st):
